@@ -429,6 +429,9 @@ def pad(
             other_component=other_component,
         )
     else:
+        if isinstance(data, dict):
+            # a vector component on a grid without face connections is padded like a scalar
+            (data,) = data.values()
         da_padded = _pad_basic(data, grid, padding_width, padding, fill_value)  # type: ignore
 
     return da_padded
